@@ -76,8 +76,12 @@ def classify(case, obs):
         if f["argstr"] is None or v is None or isinstance(v, bool):
             continue
         atoms = v["list"] if isinstance(v, dict) else [v]
-        if any((a[0] == "str" and a[1] == "") or (a[0] == "int" and a[1] == 0) or (a[0] == "float" and not a[2])
-               for a in atoms):
+        if any(a[0] == "str" and a[1] == "" for a in atoms):
+            return "F22d"
+        # `if value:` is consulted only for a scalar / MultiInputObj element of an argstr WITHOUT placeholder -- this is
+        # exactly what atom_ok (Spec/Shell.v) excludes from C22_partial; 0 inside a template is inside the theorem
+        if f["ty"] != "list" and not sg.has_placeholder(f) and any(
+                (a[0] == "int" and a[1] == 0) or (a[0] == "float" and not a[2]) for a in atoms):
             return "F22d"
     for f in fields:
         v = case["values"].get(f["name"])
